@@ -48,6 +48,9 @@ def chachaOp (N : Nat) (s : CS) (op : String) : Option (String × CS) :=
       let (b, _) := Block.fill C n child
       ("sb:" ++ hexBytes b, parent)
   | ["fill", n] => n.toNat?.map fun n => let (b, s') := Block.fill C n s; ("b:" ++ hexBytes b, s')
+  | ["zfill", n] => n.toNat?.map fun _ => let (b, s') := Block.fill C 0 s; ("b:" ++ hexBytes b, s')
+  | ["zrb"] => let (b, s') := Block.fill C 0 s; some ("b:" ++ hexBytes b, s')
+  | ["tfill", n] => n.toNat?.map fun k => let (b, s') := Block.fill C (4 * k) s; ("b:" ++ hexBytes b, s')
   | _ => none
 
 def chachaOps (N : Nat) : CS → List String → Option (List String × CS)
